@@ -53,7 +53,23 @@ def models_for(plugin, work, thorough):
     pb = docs.write(b, os.path.join(work, "B.json"))
     px = docs.write(extension_model(a), os.path.join(work, "X.json"))
     # a model *list*: the first model extended in order by a second file with several new declarations
-    return {"A": [pa], "B": [pb], "AX": [pa, px]}
+    # AL (optional: dropped for a plugin whose reference run does not accept it): a second file with type aliases
+    # whose types are anonymous literals with only "generic" member names (ties in the plugins' naming rules)
+    pl = docs.write(alias_literal_model(a), os.path.join(work, "L.json"))
+    return {"A": [pa], "B": [pb], "AX": [pa, px], "AL": [pa, pl]}
+
+
+OPTIONAL_MODELS = {"AL"}
+
+
+def alias_literal_model(base):
+    S = lambda n: {"kind": "base", "name": n}      # noqa: E731
+    lit = lambda props: {"kind": "literal", "value": {"properties": [{"name": n, "type": t} for n, t in props]}}   # noqa: E731
+    doc = {"metaData": dict(base["metaData"]), "requests": [], "notifications": [], "structures": [], "enumerations": [], "typeAliases": []}
+    doc["typeAliases"].append({"name": "VerifExtLocator", "type": lit([("position", S("uinteger")), ("location", S("string"))])})
+    doc["typeAliases"].append({"name": "VerifExtSpan", "type": lit([("text", S("string")), ("range", S("uinteger"))])})
+    doc["typeAliases"].append({"name": "VerifExtOwner", "type": lit([("owner", S("string")), ("label", S("string"))])})
+    return doc
 
 
 def extension_model(base):
@@ -194,6 +210,7 @@ def _plugin_task(args):
         models = models_for(plugin, work, thorough)
         # ---- reference: fresh directory, fresh process, hash seed 0 -- twice (must agree with itself)
         ref = {}
+        unsupported = []
         for mk, mp_ in models.items():
             digs = []
             uuid_sets = []
@@ -203,6 +220,10 @@ def _plugin_task(args):
                 prepare_test_dir(plugin, t)
                 r = run_cli(plugin, o, t, mp_, hashseed="0")
                 out["cli_runs"] += 1
+                if r.returncode != 0 and mk in OPTIONAL_MODELS:
+                    unsupported.append(mk)
+                    rm(o), rm(t)
+                    break
                 if r.returncode != 0:
                     out["bad"].append(("reference-fails", plugin, "reference run of %s on model %s exits %d: %s" % (plugin, mk, r.returncode, (r.stderr or r.stdout)[-200:]), {"history": ["Fresh", "Run(%s)" % mk]}))
                 digs.append(owned_digest(o, t))
@@ -225,10 +246,15 @@ def _plugin_task(args):
                         out["bad"].append(("uuid-leak", plugin, "uuid-shaped strings that differ between two fresh processes appear in the output of %s: %s" % (plugin, sorted(unstable)[:2]), {"history": ["Fresh", "Run(%s)" % mk]}))
                     out["uuid_shaped_constants_in_output"] = len((uuid_sets[0] & uuid_sets[1]) - in_model)
                 rm(o), rm(t)
+            if mk in unsupported:
+                continue
             if digs[0] != digs[1]:
                 diff = sorted(set(digs[0].items()) ^ set(digs[1].items()))[:3]
                 out["bad"].append(("two-fresh-runs-differ", plugin, "two fresh runs of %s on model %s in new processes (same hash seed) differ: %s" % (plugin, mk, [x[0] for x in diff]), {"history": ["Fresh", "Run(%s)" % mk, "Fresh", "Run(%s)" % mk]}))
             ref[mk] = digs[0]
+        for mk in unsupported:
+            models.pop(mk, None)
+        out["optional_models_not_accepted_by_plugin"] = unsupported
         if ref["A"] == ref["B"]:
             out["bad"].append(("selfcheck", plugin, "models A and B give identical output for %s: the 'different model' dimension is vacuous" % plugin, {}))
         # ---- hash seeds through the real CLI (process dimension)
@@ -247,7 +273,7 @@ def _plugin_task(args):
                                        {"history": ["Fresh", "Run(%s)" % mk], "hashseed": hs}))
         # ---- in-process histories (explicit-state BFS, state = digest of the directories)
         events = [("Run", mk, sm) for mk in ("A", "B") for sm in (SEAMS if thorough else SEAMS[:2])]
-        events += [("StaleOwned",), ("CorruptOwned",), ("StaleForeign",), ("Fresh",)]
+        events += [("StaleOwned",), ("CorruptOwned",), ("CrlfOwned",), ("StaleForeign",), ("Fresh",)]
         maxlen = 3
         if plugin in ("dotnet", "testdata") and not thorough:
             maxlen = 2
@@ -274,6 +300,17 @@ def _plugin_task(args):
                     real = sorted(k[4:] for k in ref["A"] if k.startswith("out/"))
                     if real:
                         place(o, {real[0]: "stale bytes under a generated name\n", real[-1]: "{}"})
+                    last = None
+                elif ev[0] == "CrlfOwned":
+                    # the same text with other line endings (a checkout with autocrlf, an editor): not the plugin's output
+                    owned = sorted(k for k in digest_tree(o) if k not in FOREIGN)
+                    for rel in owned[:2] + owned[-1:]:
+                        fp = os.path.join(o, rel)
+                        with open(fp, "rb") as fh:
+                            raw = fh.read()
+                        if b"\r\n" not in raw:
+                            with open(fp, "wb") as fh:
+                                fh.write(raw.replace(b"\n", b"\r\n"))
                     last = None
                 elif ev[0] == "CorruptOwned":
                     # a file with exactly a generated name but different bytes (interrupted run, hand edit)
@@ -427,7 +464,7 @@ def run(ctx):
         for k in tot:
             tot[k] += part[k]
         samples += part["samples"][:1]
-        per[part["plugin"]] = {k: part.get(k) for k in ("histories", "states", "runs", "cli_runs", "distinct_outcomes", "max_history_length", "uuid_issued_by_injected_streams")}
+        per[part["plugin"]] = {k: part.get(k) for k in ("histories", "states", "runs", "cli_runs", "distinct_outcomes", "max_history_length", "uuid_issued_by_injected_streams", "optional_models_not_accepted_by_plugin")}
         for kind, site, what, rp in part["bad"]:
             r = {"engine": "HIST", "plugin": site, "input": None}
             r.update(rp)
@@ -438,7 +475,7 @@ def run(ctx):
         "traces_validated_against_impl": tot["runs"] + tot["cli_runs"], "evaluations": tot["runs"] + tot["cli_runs"],
         "distinct_nontrivial": tot["histories"],
         "rule": "per plugin: explicit-state BFS over histories of events {Run(model A|B, set order asc|desc|rot, uuid stream A|B|real), StaleOwned, "
-                "CorruptOwned (an owned file overwritten with other bytes), StaleForeign, Fresh} up to the stated length, every Run through the real in-process entry point generator.__main__.main with the "
+                "CorruptOwned (an owned file overwritten with other bytes), CrlfOwned (owned files rewritten with CRLF line endings), StaleForeign, Fresh} up to the stated length, every Run through the real in-process entry point generator.__main__.main with the "
                 "seams injected; state = digest of output+test directory (de-duplicated); after every Run the owned files must be byte-identical "
                 "to the reference (fresh directory, fresh process, PYTHONHASHSEED=0), foreign files untouched, no injected uuid in any output "
                 "byte; plus real CLI runs in new processes for further hash seeds and two reference runs compared with each other",
